@@ -8,6 +8,7 @@ import (
 	"os"
 	"strconv"
 	"testing"
+	"unsafe"
 )
 
 // TestVX_C09_Target is the debuggee of tools/gdbtrace.py: it calls one assembly routine twice on the *same* buffers
@@ -41,6 +42,27 @@ func TestVX_C09_Target(t *testing.T) {
 	blocks := make([]byte, 256)
 	bout := make([]byte, 256)
 	var res int
+	tag := 16
+	if t, err := strconv.Atoi(os.Getenv("VX_TRACE_TAG")); err == nil && t >= 12 && t <= 16 {
+		tag = t
+	}
+	// allowed write ranges of the traced call (for the footprint monitor): one line per invocation, "addr len" pairs
+	var rf *os.File
+	if p := os.Getenv("VX_TRACE_RANGES"); p != "" {
+		rf, _ = os.Create(p)
+		defer rf.Close()
+	}
+	allow := func(rs ...[]byte) {
+		if rf == nil {
+			return
+		}
+		for _, b := range rs {
+			if len(b) > 0 {
+				fmt.Fprintf(rf, "%d %d ", uintptr(unsafe.Pointer(&b[0])), len(b))
+			}
+		}
+		fmt.Fprintln(rf)
+	}
 	for round := 0; round < 2; round++ {
 		fill("key", key, round)
 		fill("nonce", nonce, round)
@@ -50,27 +72,36 @@ func TestVX_C09_Target(t *testing.T) {
 		expandKey(key, &enc, &dec)
 		switch fn {
 		case "seal", "seal13":
-			sealAsm(&enc[0], 16, &out[0], nonce, msg, aad, &temp[0])
+			allow(out[:n+tag], temp[:32])
+			sealAsm(&enc[0], tag, &out[0], nonce, msg, aad, &temp[0])
 		case "open", "open13":
 			// produce an authentic ciphertext for this round first (untraced helper call), then trace Open
 			vxTraceOff()
-			sealAsm(&enc[0], 16, &ct[0], nonce, msg, aad, &temp[0])
+			sealAsm(&enc[0], tag, &ct[0], nonce, msg, aad, &temp[0])
 			vxTraceOn()
-			res += openAsm(&enc[0], 16, &out[0], nonce, ct, aad, &temp[0])
+			allow(out[:n], temp[:32])
+			res += openAsm(&enc[0], tag, &out[0], nonce, ct[:n+tag], aad, &temp[0])
 		case "block1":
+			allow(bout[:16])
 			cryptoBlockAsm(&enc[0], &bout[0], &blocks[0])
 		case "block2":
+			allow(bout[:32])
 			cryptoBlockAsmX2(&enc[0], &bout[0], &blocks[0])
 		case "block4":
+			allow(bout[:64])
 			cryptoBlockAsmX4(&enc[0], &bout[0], &blocks[0])
 		case "block8":
+			allow(bout[:128])
 			cryptoBlockAsmX8(&enc[0], &bout[0], &blocks[0])
 		case "block16":
+			allow(bout[:256])
 			cryptoBlockAsmX16(&enc[0], &bout[0], &blocks[0])
 		case "expand":
+			allow(unsafe.Slice((*byte)(unsafe.Pointer(&enc[0])), 128), unsafe.Slice((*byte)(unsafe.Pointer(&dec[0])), 128))
 			expandKeyAsm(&key[0], &enc[0], &dec[0])
 		case "ghash":
 			if n >= 16 {
+				allow(temp[:16])
 				gHashBlocks(&key[0], &temp[0], &msg[0], n/16)
 			}
 		}
